@@ -59,7 +59,7 @@ Fixpoint copy_props (inv : list (Z * list str)) (beh : list (Z * Z)) (allowed : 
   end.
 
 Definition nonempty_props (p : option props) : option props :=
-  match p with Some (x :: r) => Some (x :: r) | _ => None end.     (* deepcopy(template) or blank(): an empty mapping is falsy *)
+  match p with Some (x :: r) => Some (x :: r) | _ => None end.
 
 Fixpoint convert_charts (inv : list (Z * list str)) (beh : list (Z * Z)) (allowed : option (list str))
          (tmpl : props) (charts : list props) : cres (list props) :=
@@ -84,26 +84,34 @@ Definition sm_negative_timing (sf : props) : cres bool :=
   | _, _ => CUnmodelled
   end.
 
+(* deepcopy(template) or blank(): an empty mapping is falsy, so an empty template means "blank" *)
+Definition base_of (blank : props) (tmpl_sf : option (props * list props)) : props * list props :=
+  match tmpl_sf with Some (x :: r, cs) => (x :: r, cs) | _ => (blank, []) end.
+Definition chart_tmpl_of (blank : props) (tmpl_chart : option props) : props :=
+  match nonempty_props tmpl_chart with Some t => t | None => blank end.
+
+Definition lift_charts {T} (out : T) (base_charts : list props) (r : cres (list props)) : cres (T * list props) :=
+  match r with
+  | COk cs => COk (out, base_charts ++ cs)
+  | CNotImpl => CNotImpl | CInvalid k => CInvalid k | CKeyError => CKeyError | CUnmodelled => CUnmodelled
+  end.
+
+Definition convert_core (inv_sf inv_chart : list (Z * list str)) (beh : list (Z * Z)) (allowed : option (list str))
+           (sf : props) (charts : list props) (base : props) (base_charts : list props) (ct : props) : cres (props * list props) :=
+  match copy_props inv_sf beh None sf base with
+  | COk out => lift_charts out base_charts (convert_charts inv_chart beh allowed ct charts)
+  | CNotImpl => CNotImpl | CInvalid k => CInvalid k | CKeyError => CKeyError | CUnmodelled => CUnmodelled
+  end.
+
 (* source: SM props + SM charts (as maps of six); templates: optional SSC simfile (props + charts) and chart *)
 Definition sm_to_ssc (sf : props) (charts : list props) (tmpl_sf : option (props * list props)) (tmpl_chart : option props)
   : cres (props * list props) :=
-  let '(base, base_charts) :=
-    match tmpl_sf with
-    | Some (x :: r, cs) => (x :: r, cs)
-    | _ => (Tables.blank_ssc_simfile, [])
-    end in
   match sm_negative_timing sf with
   | COk true => CNotImpl
   | COk false =>
-      match copy_props Tables.invalid_ssc_simfile [] None sf base with
-      | COk out =>
-          let ct := match nonempty_props tmpl_chart with Some t => t | None => Tables.blank_ssc_chart end in
-          match convert_charts Tables.invalid_ssc_chart [] None ct charts with
-          | COk cs => COk (out, base_charts ++ cs)
-          | CNotImpl => CNotImpl | CInvalid k => CInvalid k | CKeyError => CKeyError | CUnmodelled => CUnmodelled
-          end
-      | CNotImpl => CNotImpl | CInvalid k => CInvalid k | CKeyError => CKeyError | CUnmodelled => CUnmodelled
-      end
+      convert_core Tables.invalid_ssc_simfile Tables.invalid_ssc_chart [] None sf charts
+        (fst (base_of Tables.blank_ssc_simfile tmpl_sf)) (snd (base_of Tables.blank_ssc_simfile tmpl_sf))
+        (chart_tmpl_of Tables.blank_ssc_chart tmpl_chart)
   | _ => CUnmodelled
   end.
 
@@ -112,21 +120,10 @@ Definition ssc_has_warps (sf : props) : bool := truthy (get kWARPS sf).
 
 Definition ssc_to_sm (sf : props) (charts : list props) (tmpl_sf : option (props * list props)) (tmpl_chart : option props)
            (beh : list (Z * Z)) : cres (props * list props) :=
-  let '(base, base_charts) :=
-    match tmpl_sf with
-    | Some (x :: r, cs) => (x :: r, cs)
-    | _ => (Tables.blank_sm_simfile, [])
-    end in
   if ssc_has_warps sf then CNotImpl else
-  match copy_props Tables.invalid_sm_simfile beh None sf base with
-  | COk out =>
-      let ct := match nonempty_props tmpl_chart with Some t => t | None => Tables.blank_sm_chart end in
-      match convert_charts Tables.invalid_sm_chart beh (Some Tables.sm_chart_properties) ct charts with
-      | COk cs => COk (out, base_charts ++ cs)
-      | CNotImpl => CNotImpl | CInvalid k => CInvalid k | CKeyError => CKeyError | CUnmodelled => CUnmodelled
-      end
-  | CNotImpl => CNotImpl | CInvalid k => CInvalid k | CKeyError => CKeyError | CUnmodelled => CUnmodelled
-  end.
+  convert_core Tables.invalid_sm_simfile Tables.invalid_sm_chart beh (Some Tables.sm_chart_properties) sf charts
+    (fst (base_of Tables.blank_sm_simfile tmpl_sf)) (snd (base_of Tables.blank_sm_simfile tmpl_sf))
+    (chart_tmpl_of Tables.blank_sm_chart tmpl_chart).
 
 (* ---- wire ---- *)
 Definition sx_cres {T} (f : T -> sx) (r : cres T) : sx :=
